@@ -143,7 +143,7 @@ def run(report, tier, seed):
             except Exception as exc:  # noqa: BLE001
                 note("decompose-raise", f"decompose({desc}) raised {type(exc).__name__}: {exc}", {"poly": lay})
         # --- set_dimensions ------------------------------------------------------------------
-        if lay["names"] == list(range(D)):           # names q0..q(D-1): the documented use
+        if all(v < 10 for v in lay["names"]):        # any names below q10 (string order = index order there), gaps included
             d = rng.randint(1, 5)
             try:
                 sd = numpoly.set_dimensions(p, d)
@@ -266,7 +266,7 @@ def run(report, tier, seed):
                               **report.coverage.get("broken_obligation", {})}, found_input=False)
     report.coverage["trusted_base"] = ["Coq 8.16.1 kernel + VM", "MathComp / SsrMultinomials", "translator query_tr.py (statement-by-statement comparison of 7 functions with the statements the models were written from)",
                                        "harness oracle for the argmax/argmin/amax/amin relations"]
-    report.assumptions += ["integer coefficients", "set_dimensions is exercised on names q0..q(D-1) (its documented use)"]
+    report.assumptions += ["integer coefficients", "set_dimensions is exercised on names below q10, with gaps (beyond that the string order of names differs from the index order the model uses)"]
 
 
 def replay(path):
